@@ -91,7 +91,8 @@ def round_(left: float | int, digits: int | None = None) -> float | int:
         _digits = int(_digits)
 
     if _digits < 0:
-        return 0
+        # Round to tens, hundreds, ... The result is an integer.
+        return int(round(left, _digits))
     if _digits == 0:
         return round(left)
 
